@@ -19,6 +19,8 @@ ACT = {
     "lockholder": "import time\nc = channel.gateway.newchannel()\nchannel.send(c)\nwhile c._items.qsize() == 0:\n    time.sleep(0.01)\nc.setcallback(lambda x: time.sleep(1000))",
     "transfer": "data = b'x' * (1 << 20)\nwhile 1:\n    channel.send(data)",
     "endmarker_raiser": "import time\ndef cb(x):\n    if x == 'END':\n        raise ValueError('callback fails on its endmarker')\nc = channel.gateway.newchannel()\nc.setcallback(cb, endmarker='END')\nchannel.send(c)\ntime.sleep(1000)",
+    "callback_sysexit": "def cb(x):\n    raise SystemExit(3)\nc = channel.gateway.newchannel()\nc.setcallback(cb)\nchannel.send(c)\nchannel.receive()",
+    "nondaemon_thread": "import threading, time\nthreading.Thread(target=time.sleep, args=(1000,)).start()\nchannel.send('started')",
     "sender": "n = 0\nwhile True:\n    channel.send(n)\n    n += 1",
     "sender_swallow": "n = 0\nwhile True:\n    try:\n        channel.send(n)\n        n += 1\n    except OSError:\n        break\n    except KeyboardInterrupt:\n        pass",
 }
@@ -44,6 +46,12 @@ for gw in gws:
             chans.append(sub)
         if activity == "endmarker_raiser":
             chans.append(ch.receive(10))
+        if activity == "callback_sysexit":
+            sub = ch.receive(10)
+            sub.send(1)              # the worker's callback raises SystemExit in its receiver thread
+            chans.append(sub)
+        if activity == "nondaemon_thread":
+            ch.receive(10)           # the body has ended; a non-daemon thread of its own stays
 time.sleep(0.4)
 with open(out + ".tmp", "w") as f:
     f.write(" ".join(map(str, pids)))
